@@ -24,6 +24,7 @@ type runConfig struct {
 	noReplay bool
 	noEvidence bool
 	rerun    string
+	sigs     bool
 	outDir   string
 }
 
@@ -50,6 +51,7 @@ func main() {
 	flag.BoolVar(&rc.noReplay, "no-replay", false, "do not run replays")
 	flag.StringVar(&rc.outDir, "out", "", "scratch/output directory (default <verif>/out)")
 	flag.BoolVar(&rc.noEvidence, "no-evidence", false, "do not write the evidence file (self-test runs on scratch copies)")
+	flag.BoolVar(&rc.sigs, "sigs", false, "print `NAME :: (params) (results)` for every in-package function under contract (to pin contract names)")
 	flag.StringVar(&rc.rerun, "rerun", "", "re-run a previously generated replay test (path of the replay .txt or _test.go file)")
 	flag.Parse()
 	if rc.outDir == "" {
@@ -64,7 +66,41 @@ func main() {
 	if rc.rerun != "" {
 		os.Exit(rerun(&rc))
 	}
+	if rc.sigs {
+		os.Exit(dumpSigs(&rc))
+	}
 	os.Exit(run(&rc))
+}
+
+// dumpSigs prints the current source names of receiver, parameters and results.
+func dumpSigs(rc *runConfig) int {
+	prog, err := loadProgram(rc.repo, []string{filepath.Join(rc.repo, "verif_contracts.go")}, []string{filepath.Join(rc.verif, "contracts", "extern.spec")})
+	if err != nil {
+		fmt.Println("load error:", err)
+		return 2
+	}
+	for _, n := range prog.spec.Order {
+		fn := prog.funcs[n]
+		if fn == nil || fn.Parent() != nil {
+			continue
+		}
+		var ps []string
+		for _, p := range fn.Params {
+			ps = append(ps, p.Name())
+		}
+		ok := true
+		for _, p := range ps {
+			if p == "" || p == "_" {
+				ok = false
+			}
+		}
+		if !ok {
+			continue
+		}
+		rs := resultNames(fn.Signature, nil)
+		fmt.Printf("%s :: (%s) (%s)\n", n, strings.Join(ps, ", "), strings.Join(rs, ", "))
+	}
+	return 0
 }
 
 // rerun executes a previously generated replay test again on /repo's current tree.
